@@ -1,7 +1,9 @@
 ------------------------------ MODULE MC_C19 ------------------------------
 (***************************************************************************)
 (* C19: the configuration space of the command line tool is finite; TLC    *)
-(* enumerates it (complete product in the thorough tier: 1 259 712         *)
+(* enumerates it (thorough tier: every area / k_exp quadruple with one     *)
+(* eighth of the other parameters and the complete product for the 36      *)
+(* quadruples without invalid value, some 340 000                          *)
 (* configurations; in the quick tier the two sub-products area x k_exp and *)
 (* location x RED1 x RED2 completely, the other half chosen by a covering  *)
 (* function) and checks on spec/Cli.tla that the resolution is well formed *)
@@ -17,6 +19,7 @@ vars == <<ph, cfg>>
 
 S5 == <<"absent", "valid", "edge", "range", "text", "fine">>
 S3 == <<"absent", "valid", "text">>
+SO == <<"absent", "valid", "text", "default">>
 LO == <<"absent", "PENINSULA">>
 LM == <<"absent", "CANARIAS", "MARTE">>
 
@@ -29,17 +32,23 @@ PickA ==
        cfg' = [aopt |-> S5[a], ameta |-> S5[am], kopt |-> S5[k], kmeta |-> S5[km], h |-> H1(a, am, k, km)]
 PickB ==
   /\ ph = 1 /\ ph' = 2
-  /\ \E lo \in 1..2, lm \in 1..3, ff \in BOOLEAN, r1 \in 1..3, r1m \in 1..3, r2 \in 1..3, r2m \in 1..3 :
+  /\ \E lo \in 1..2, lm \in 1..3, ff \in BOOLEAN, r1 \in 1..4, r1m \in 1..3, r2 \in 1..4, r2m \in 1..3 :
        /\ (Tier = "quick" =>
              \* either the rest is the covering function of the quadruple ...
              \/ /\ lo = (cfg.h % 2) + 1 /\ lm = ((cfg.h \div 2) % 3) + 1 /\ ff = ((cfg.h \div 6) % 3 = 0)
-                /\ r1 = ((cfg.h \div 5) % 3) + 1 /\ r1m = ((cfg.h \div 15) % 3) + 1
-                /\ r2 = ((cfg.h \div 7) % 3) + 1 /\ r2m = ((cfg.h \div 21) % 3) + 1
+                /\ r1 = ((cfg.h \div 5) % 4) + 1 /\ r1m = ((cfg.h \div 15) % 3) + 1
+                /\ r2 = ((cfg.h \div 7) % 4) + 1 /\ r2m = ((cfg.h \div 21) % 3) + 1
              \* ... or the quadruple is one of three fixed ones and the rest is enumerated completely
              \/ cfg.h \in {H1(1, 1, 1, 1), H1(2, 2, 2, 2), H1(1, 2, 1, 3)})
+       \* thorough: every quadruple with one eighth of the rest (chosen by a hash that differs from quadruple to
+       \* quadruple), and the complete rest for the quadruples without invalid value
+       /\ (Tier = "thorough" =>
+             \/ (cfg.h + lo + 3 * lm + (IF ff THEN 5 ELSE 0) + 7 * r1 + 11 * r1m + 13 * r2 + 17 * r2m) % 8 = 0
+             \/ (cfg.aopt \in {"absent", "valid", "fine"} /\ cfg.ameta \in {"absent", "valid"}
+                  /\ cfg.kopt \in {"absent", "valid", "fine"} /\ cfg.kmeta \in {"absent", "valid"}))
        /\ cfg' = [aopt |-> cfg.aopt, ameta |-> cfg.ameta, kopt |-> cfg.kopt, kmeta |-> cfg.kmeta,
                   lopt |-> LO[lo], lmeta |-> LM[lm], ffile |-> ff,
-                  r1opt |-> S3[r1], r1meta |-> S3[r1m], r2opt |-> S3[r2], r2meta |-> S3[r2m],
+                  r1opt |-> SO[r1], r1meta |-> S3[r1m], r2opt |-> SO[r2], r2meta |-> S3[r2m],
                   \* spelling of the metadata keys (legacy names Area_ref / kexp / Localizacion are mapped to the
                   \* CTE_ names by the parser) and verbosity of the run: neither may change the outcome
                   legacy |-> ((cfg.h + lo + r1 + r2m) % 2 = 0), verbose |-> ((cfg.h + lm + r1m + r2) % 3)]
